@@ -93,10 +93,11 @@ def reference(p, d, c, xs, ys, num):
     return u, su, e, se, tx, ty
 
 
-def judge_fields(c, p, d, cvec, xs, ys, num, label=''):
+def judge_fields(c, p, d, cvec, xs, ys, num, label='', cin=None):
     """uvw / strain / stress of one Panel at the given points against the reference"""
     u_ref, su, e_ref, se, tx, ty = reference(p, d, cvec, xs, ys, num)
-    out = p.uvw(cvec, xs=xs, ys=ys)
+    ci = cvec if cin is None else cin      # the object handed to the package (same values, other memory layout)
+    out = p.uvw(ci, xs=xs, ys=ys)
     c.hit('uvw')
     got = np.array([np.asarray(o).ravel() for o in out])
     names = ['u', 'v', 'w', 'phix', 'phiy']
@@ -110,7 +111,7 @@ def judge_fields(c, p, d, cvec, xs, ys, num, label=''):
     wx = -u_ref[3]; wy = -u_ref[4]
     res = {}
     for NL in (False, True):
-        st = p.strain(cvec, xs=xs, ys=ys, NLterms=NL)
+        st = p.strain(ci, xs=xs, ys=ys, NLterms=NL)
         c.hit('strain')
         c.tag('NLterms:on' if NL else 'NLterms:off')
         E = np.array([st[k].ravel() for k in ('exx', 'eyy', 'gxy', 'kxx', 'kyy', 'kxy')])
@@ -141,7 +142,7 @@ def judge_fields(c, p, d, cvec, xs, ys, num, label=''):
         # stress = F * (the strains reported for the same request)
         if p.F is not None:
             F = np.asarray(p.F)
-            sg = p.stress(cvec, xs=xs, ys=ys, NLterms=NL)
+            sg = p.stress(ci, xs=xs, ys=ys, NLterms=NL)
             c.hit('stress')
             S = np.array([sg[k].ravel() for k in ('Nxx', 'Nyy', 'Nxy', 'Mxx', 'Myy', 'Mxy')])
             Sref = F @ E
@@ -150,7 +151,7 @@ def judge_fields(c, p, d, cvec, xs, ys, num, label=''):
             bad = float((np.abs(S - Sref) / ssc).max())
             if bad > 1e-12 and not NL:
                 # defect model: stress() ignored NLterms and always used NLterms=True strains
-                Et = p.strain(cvec, xs=xs, ys=ys, NLterms=True)
+                Et = p.strain(ci, xs=xs, ys=ys, NLterms=True)
                 Et = np.array([Et[k].ravel() for k in ('exx', 'eyy', 'gxy', 'kxx', 'kyy', 'kxy')])
                 if float((np.abs(S - F @ Et) / (np.abs(F) @ np.abs(Et) + 1e-300)).max()) <= 1e-12:
                     mech = 'stress-ignores-NLterms'
@@ -188,7 +189,10 @@ def case_panel(rng, tier):
     c.tag('amp:' + ckind, 'pts:' + pkind, 'threads:%d' % nthreads)
     c.nontrivial = ckind == 'dense' and xs.size >= 2
     cb = cvec.copy(); xb = xs.copy(); yb = ys.copy()
-    got, res = judge_fields(c, p, d, cvec, xs, ys, num)
+    crep, rk = gen.vec_repr(rng, cvec)
+    c.tag('repr:' + rk)
+    got, res = judge_fields(c, p, d, cvec, xs, ys, num, cin=crep)
+    c.expect('amplitude object not modified', np.array_equal(np.asarray(crep, dtype=float), cvec))
     c.expect('caller arrays not modified', np.array_equal(cb, cvec) and np.array_equal(xb, xs) and np.array_equal(yb, ys))
     # permutation equivariance / batching / thread count (bit-exact)
     perm = rng.permutation(xs.size)
